@@ -877,7 +877,6 @@ var diffLoopExits = map[string]string{
 	"diff.getParams › loop over spec.Parameter #2 › conditional store #1": "‹spec.Parameter›.In == ‹string› ⇒ same, operation-level parameters",
 }
 
-
 // checkBothPresent: a difference that is only looked for when the attribute is present (non-nil,
 // non-empty, true) on BOTH sides leaves the one-sided cases — attribute added, attribute removed,
 // default spelled out — to someone else: the same function must emit something under a one-sided
@@ -971,7 +970,6 @@ func checkBothPresent(c *Ctx, rule string, r *goan.Rel) {
 	}
 }
 
-
 // checkDeprecatedDowngrade: deleting an endpoint is downgraded to a non-breaking change when the
 // endpoint was deprecated — which is a fact about that operation, read from its own Deprecated
 // flag, never from a sibling operation of the same path item.
@@ -1021,7 +1019,6 @@ func checkDeprecatedDowngrade(c *Ctx, rule string, pk *packages.Package) {
 		c.Unk(rule, "diff.SpecAnalyser.findDeletedEndpoints › selection of DeletedDeprecatedEndpoint", c.posOf(pk, fd.Pos()), "no condition selecting DeletedDeprecatedEndpoint found")
 	}
 }
-
 
 // checkMediaCoverage: "a consumed media type is removed" can happen in the document's list and in an
 // operation's own list; both must be handed to DiffsTo.
